@@ -84,7 +84,10 @@ class SfSched(Sched):
     def _cancellable(self):
         return [c for c, t in sorted(self.callers.items()) if not t.done()]
 
-    async def run_sf(self, programs: dict[int, Callable[[], Awaitable]], snapshot: Callable[[], Any]):
+    async def run_sf(self, programs: dict[int, Callable[[], Awaitable]], snapshot: Callable[[], Any], deferred=()):
+        """`deferred`: callers that the scheduler does not start itself - `self.spawn(cid)` starts them from wherever it is
+        called (a wrapped body: the caller then is a task SPAWNED BY THAT BODY, with a copy of its context), parked at
+        their start like everybody else; a deferred caller nobody spawns does not exist"""
         loop = asyncio.get_running_loop()
         self._wake = asyncio.Event()
 
@@ -95,8 +98,16 @@ class SfSched(Sched):
                 return await fn()
             return body
 
+        def spawn(cid):
+            if cid in programs and cid not in self.callers:
+                self.callers[cid] = loop.create_task(starter(cid, programs[cid])())
+                return True
+            return False
+
+        self.spawn = spawn
         for cid, fn in programs.items():
-            self.callers[cid] = loop.create_task(starter(cid, fn)())
+            if cid not in deferred:
+                self.callers[cid] = loop.create_task(starter(cid, fn)())
         steps = 0
         while True:
             await self._quiesce()
